@@ -35,6 +35,8 @@
 import CatVerif.Proofs.LineHist
 import CatVerif.Proofs.MidLine
 import CatVerif.Proofs.Readers
+import CatVerif.Proofs.Rest
+import CatVerif.Properties.C15
 namespace Cat
 open St
 
@@ -217,5 +219,38 @@ theorem C01_framing_generated (D : Desc) :
     errorState = Gen.error_state ∧ processIdleState = Gen.process_idle_state D ∧ parsePrefix = Gen.parse_prefix ∧
     parseCommand = Gen.parse_command :=
   ⟨errorState_generated, processIdleState_generated D, parsePrefix_generated, parseCommand_generated⟩
+
+/-- the state `cat_init` leaves behind, for any descriptor and buffers -/
+theorem C01_init_world (D : Desc) (buf ubuf : List Byte) (mem : List (List Byte)) :
+    LineInv (init D buf ubuf mem) ∧ MidLine (init D buf ubuf mem) ∧ owes (init D buf ubuf mem) = 0 := by
+  refine ⟨⟨by simp [HoldCpl, init], ⟨by simp [PostLF, init], by simp [init], by simp [init], by simp [init]⟩⟩,
+    MidLine.of_not (by simp [MidSet, init]), by simp [owes, init]⟩
+
+/-- **Every line is answered, exactly once** (C01 and the liveness of C15 composed).  Over any
+history from `cat_init` (descriptor hypotheses as for `C03_no_out_of_bounds`) whose last consumed
+byte is the LF of a line and which does not end in a hold: any further run of more than `mu` calls
+of `cat_service` without input, with an accepting output and handlers that answer finally ends in
+IDLE with both machines at rest, and over the whole history the number of result codes started
+equals the number of lines begun.  (`mu` is bounded by `C15_bound`.) -/
+theorem C01_every_line_answered (D : Desc) (buf ubuf : List Byte) (mem : List (List Byte)) (ops : List Op)
+    (hok : ∀ op ∈ ops, OpOk op) (hn : 0 < D.commandsNum) (hc : 0 < D.cap) (hd : DescOk D) (hb : D.cmdCap ≤ buf.length)
+    (hm : ∀ id, ∀ v ∈ (D.cmdD id).vars.getD [], v.dataSize ≤ (mem.getD v.slot []).length)
+    (hh : (runOps ⟨D, init D buf ubuf mem⟩ ops).1.s.state ≠ .hold)
+    (hlf : (runOps ⟨D, init D buf ubuf mem⟩ ops).1.s.currentChar = 10)
+    (is : List SvcIn) (ht : ∀ i ∈ is, TermIn i)
+    (hlen : mu (runOps ⟨D, init D buf ubuf mem⟩ ops).1.D (runOps ⟨D, init D buf ubuf mem⟩ ops).1.s < is.length) :
+    let r := runOps ⟨D, init D buf ubuf mem⟩ (ops ++ is.map .service)
+    r.1.s.state = .idle ∧ r.1.s.ustate = .idle ∧ r.1.s.rcount = 0 ∧
+    acksIn r.2 = linesBegun ⟨D, init D buf ubuf mem⟩ (ops ++ is.map .service) := by
+  have i0 := C01_init_world D buf ubuf mem
+  exact lines_answered ⟨D, init D buf ubuf mem⟩ ops hok i0.1 i0.2.1 i0.2.2
+    (C15_reachable_live D buf ubuf mem ops hok hn hc hd hb hm hh) hlf is ht hlen
+
+/-- non-vacuity: after `AT` LF has been consumed the hypotheses on the end of the history hold -/
+example : (runOps ⟨exDesc, init exDesc (List.replicate 16 0) [] [[0]]⟩
+      [.service { rd := some 65 }, .service { rd := some 84 }, .service { rd := some 10 }]).1.s.currentChar = 10 ∧
+    (runOps ⟨exDesc, init exDesc (List.replicate 16 0) [] [[0]]⟩
+      [.service { rd := some 65 }, .service { rd := some 84 }, .service { rd := some 10 }]).1.s.state ≠ .hold := by
+  decide
 
 end Cat
